@@ -222,7 +222,7 @@ def run(pid, tier, seed):
     rep = common.Report(pid, tier, seed)
     rep.assumptions = list(ASSUME)
     for name in (["MC_%s_quick" % pid] if tier == "quick" else ["MC_%s_quick" % pid, "MC_%s_thorough" % pid]):
-        r = tlc.run_tlc("TorStateM_MC", "TorStateM_%s.cfg" % name, workers=16, timeout=150 if tier == "quick" else 1500)
+        r = tlc.run_tlc("TorStateM_MC", "TorStateM_%s.cfg" % name, workers=16, timeout=150 if tier == "quick" else 1200)
         if r.timed_out and not r.invariant_violated:
             rep.cov["tlc_runs"].append(dict(name=name, generated=r.generated, distinct=r.distinct, depth=r.depth,
                                             wall_s=round(r.wall, 1), ok=True, complete=False))
